@@ -1664,7 +1664,10 @@ fn tagfilter(literal: &[u8]) -> bool {
             if j >= literal.len() {
                 return false;
             }
+            // Form feed ends a tag name for the HTML tokenizer too; `isspace`
+            // does not include it.
             return isspace(literal[j])
+                || literal[j] == b'\x0c'
                 || literal[j] == b'>'
                 || (literal[j] == b'/' && literal.len() >= j + 2 && literal[j + 1] == b'>');
         }
